@@ -154,8 +154,11 @@ def gen_case(rnd, prop, tier):
         calls = []
         for k in range(rnd.choice([1, 2, 3, 3, 4])):
             calls.append(dict(seed=rnd.getrandbits(32), scale=rnd.choice([0.3, 1.0, 3.0, 8.0, 8.0, 60.0, 400.0]), total=rnd.choice([1.0, 1.0, 10.0, 250.0, 1e4]),
-                              sweeps=rnd.choice(['enough', 'enough', 'split', 1, 2, 5]), sub=rnd.random() < 0.25))
+                              sweeps=rnd.choice(['enough', 'enough', 'split', 1, 2, 5]), sub=rnd.random() < 0.25,
+                              damp_up=(oracle == 'gbp' and k > 0 and rnd.random() < 0.2)))
         return dict(engine='F', attrs=attrs, sizes=sizes, cliques=cliques, oracle=oracle, structure=structure, calls=calls,
+                    damping=rnd.choice([0.5, 0.5, 0.5, 0.25, 0.75, 0.9]) if oracle == 'gbp' else None,
+                    clone_at=rnd.randrange(len(calls)) if rnd.random() < 0.2 else None,
                     total0=rnd.choice([1.0, 10.0, 100.0]), tie=rnd.choice([None, None, rnd.getrandbits(32)]), fresh_names=rnd.random() < 0.35,
                     decoy=rnd.random() < 0.3)
     # C18
@@ -253,7 +256,11 @@ def run_c16(mbi, case):
     digests = []
     hist = []
     if kind == 'gbp':
-        obj, v = guard(lambda: mbi.RegionGraph(dom, cliques, case['total0'], convex=False, iters=1), 'RegionGraph')
+        kw = {}
+        if case.get('damping') not in (None, 0.5):
+            kw['damping'] = case['damping']         # a constructor knob of the oracle (LocalInference raises it on the object later)
+            faults['non-default-damping'] = 1
+        obj, v = guard(lambda: mbi.RegionGraph(dom, cliques, case['total0'], convex=False, iters=1, **kw), 'RegionGraph')
     else:
         obj, v = guard(lambda: mbi.FactorGraph(dom, cliques, case['total0'], convex=False, iters=1), 'FactorGraph')
     if v:
@@ -292,7 +299,23 @@ def run_c16(mbi, case):
         if obj.total != total:
             faults['total-changed-between-calls'] = faults.get('total-changed-between-calls', 0) + (1 if ci > 0 else 0)
         obj.total = total
+        if case.get('clone_at') == ci:
+            # the caller keeps the oracle it has and continues on a deep copy (a snapshot taken before trying other totals / sweep
+            # counts): the copy is an oracle in its own right, the original stays alive next to it
+            original = obj
+            obj, v = guard(lambda: copy.deepcopy(original), 'deepcopy:' + kind)
+            if v:
+                viol.append(v.as_dict())
+                break
+            faults['continued-on-deep-copy'] = 1
+        if call.get('damp_up') and hasattr(obj, 'damping'):
+            obj.damping = (0.9 + obj.damping) / 2.0         # what LocalInference.mirror_descent_auto does to the oracle it holds
+            faults['damping-raised-between-calls'] = faults.get('damping-raised-between-calls', 0) + 1
         enough = (60 + 10 * ncl) if kind == 'gbp' else (2 * ncl + 4)
+        if kind == 'gbp' and 0.5 < float(getattr(obj, 'damping', 0.5)) < 1:
+            # a damped update m <- rho*m + (1-rho)*new contracts by rho per sweep: scale the sweep count so that an implementation that
+            # honours the knob is given as many halvings as the default 0.5 gets
+            enough = int(np.ceil(enough * np.log(0.5) / np.log(float(obj.damping))))
         split = call['sweeps'] == 'split'
         sweeps = enough if call['sweeps'] in ('enough', 'split') else call['sweeps']
         if ci > 0:
@@ -623,8 +646,26 @@ def shrink(case, prop):
         for k in range(len(calls)):
             c = copy.deepcopy(case)
             del c['calls'][k]
+            ca = c.get('clone_at')
+            if ca is not None and ca > k:
+                c['clone_at'] = ca - 1
+            elif ca is not None and ca >= len(c['calls']):
+                c['clone_at'] = None
             yield c
     if prop == 'C16':
+        if case.get('clone_at') is not None:
+            c = copy.deepcopy(case)
+            c['clone_at'] = None
+            yield c
+        if case.get('damping') not in (None, 0.5):
+            c = copy.deepcopy(case)
+            c['damping'] = 0.5
+            yield c
+        for k, call in enumerate(calls):
+            if call.get('damp_up'):
+                c = copy.deepcopy(case)
+                c['calls'][k]['damp_up'] = False
+                yield c
         if case.get('fresh_names'):
             c = copy.deepcopy(case)
             c['fresh_names'] = False
